@@ -231,12 +231,13 @@ def expected_doc(case):
                 for c in x["ranges"]:
                     key = c["status"] or "default"
                     hd = props(c["headers"])
+                    # the description of a response: that of the last content of the status that has one; a schema used
+                    # directly as a content may lend its description (the evaluator does so for inline schemas, not for
+                    # recursion points; for a bare reference it is the description reaching the reference): then either
                     if c.get("desc"):
-                        o["resp_desc"][key] = c["desc"]          # the last content of a status that has a description
-                        o["resp_desc_alt"].pop(key, None)
+                        o["resp_desc_alt"][key] = {c["desc"]}
                     elif c.get("sdesc") or c.get("sdesc2"):
-                        # copied from an inline schema, or not (recursion point); for a bare reference the description reaching it
-                        o["resp_desc_alt"].setdefault(key, set()).update(x for x in (c.get("sdesc"), c.get("sdesc2")) if x)
+                        o["resp_desc_alt"][key] = set(o["resp_desc_alt"].get(key, {""})) | {x for x in (c.get("sdesc"), c.get("sdesc2")) if x}
                     if c["body"]:
                         o["responses"].append((key, c["media"] or "application/json", norm_sch(c["body"][0]), hd))
                     else:
@@ -322,11 +323,11 @@ def compare_docs(exp, real):
                     out.append(("tags-differ", "%s %s: tags expected %r, document %r" % (m, pat, eo.get("tags"), ro.get("tags"))))
                 if eo.get("request") and (ro.get("request_desc") or "") not in ({eo.get("request_desc") or ""} | (set(eo.get("request_desc_alt") or [""]) if not eo.get("request_desc") else set())):
                     out.append(("request-description-differs", "%s %s: request body description expected %r, document %r" % (m, pat, eo.get("request_desc"), ro.get("request_desc"))))
-                for k_, want_d in (eo.get("resp_desc") or {}).items():
-                    if k_ in (ro.get("resp_desc") or {}) and ro["resp_desc"][k_] != want_d:
-                        out.append(("response-description-differs", "%s %s %s: description expected %r, document %r" % (m, pat, k_, want_d, ro["resp_desc"][k_])))
+                for k_, allowed in (eo.get("resp_desc_alt") or {}).items():
+                    if k_ in (ro.get("resp_desc") or {}) and ro["resp_desc"][k_] not in allowed:
+                        out.append(("response-description-differs", "%s %s %s: description expected one of %r, document %r" % (m, pat, k_, sorted(allowed), ro["resp_desc"][k_])))
                 for k_, got_d in (ro.get("resp_desc") or {}).items():
-                    if got_d and k_ not in (eo.get("resp_desc") or {}) and got_d not in (eo.get("resp_desc_alt") or {}).get(k_, set()):
+                    if got_d and k_ not in (eo.get("resp_desc_alt") or {}):
                         out.append(("response-description-undeclared", "%s %s %s: description %r is not declared" % (m, pat, k_, got_d)))
                 # a response of the document is keyed by status; its content by media type.  A declared content with a body
                 # must be there under (status, media); a declared content without a body only requires the status.  Headers
